@@ -13,7 +13,9 @@ META = {
                   "cells set exactly by their own reply's dispatch, a waiter returns only with its own reply, unique sequence numbers, no lost wake-up (a sleeper always has a "
                   "pending notifier) and progress while a reply is in the stream. 'Every request completes' is proved REFUTED for waiters without a deadline "
                   "(c13_completion_refuted_without_deadline: the F5 window leaves the waiter in poll on an empty stream with its result ready; known finding F5c; the harness runs "
-                  "no-deadline scenarios and recognises exactly that shape). SCOPE of the model: waits that do not expire (expiry and late replies are C15's), by-value replies "
+                  "no-deadline scenarios and recognises exactly that shape). SCOPE of the model: waits with or without an expiry (LExpire: the clock passes a request's expiry; the wait loop then gives up at its next test and a reply "
+                  "dispatched later is dropped: c13_ready_iff_dispatched speaks of non-late dispatches, c13_late_only_after_expiry, c13_gives_up_only_after_expiry; expiry runs "
+                  "with a slow peer are replayed in the model), by-value replies "
                   "dispatched in one step (a reply whose unboxing needs a nested round trip is C15's F48; since 5dce6c8 a reply that cannot be rebuilt fails its own request), "
                   "incoming REPLIES only - incoming requests of the peer and exception replies are run by the harness (mixed phase: each peer request answered exactly once, each "
                   "exception reply fails exactly its request) but are not in the transition system. No liveness beyond progress: 'every request completes' is refuted above for "
@@ -67,7 +69,7 @@ class VChan:
         self.closed = True
 
 
-def scenario(n_clients, with_bg, answer_order, chooser, sync_timeout=2.0, timeouts=None, eof_after=None, peer_requests=0, exc_replies=()):
+def scenario(n_clients, with_bg, answer_order, chooser, sync_timeout=2.0, timeouts=None, eof_after=None, peer_requests=0, exc_replies=(), answer_delay=None):
     """returns dict(result per client, events, lateness per client, deadlock, clock advances)"""
     codes = [P.Connection.serve.__code__, P.Connection._dispatch.__code__, P.Connection._seq_request_callback.__code__,
              P.Connection._async_request.__code__, P.Connection._get_seq_id.__code__, P.Connection._send.__code__,
@@ -97,6 +99,7 @@ def scenario(n_clients, with_bg, answer_order, chooser, sync_timeout=2.0, timeou
             return None
         L_wait = find_line(A.AsyncResult.wait, "while not self._is_ready")
         L_ready = find_line(A.AsyncResult.__call__, "self._is_ready = True")
+        L_drop = find_line(A.AsyncResult.__call__, "return")          # `if self.expired: return`: a late reply is dropped here
         L_bg = find_line(H.BgServingThread._bg_server, "while self._active")
         L_seq = find_line(P.Connection._get_seq_id, "next(self._seqcounter)")
         orig_tracer = S.tracer
@@ -113,6 +116,11 @@ def scenario(n_clients, with_bg, answer_order, chooser, sync_timeout=2.0, timeou
                         rec(("step", S.me(), "looptest", None))
                     elif co is H.BgServingThread._bg_server.__code__ and ln == L_bg:
                         rec(("step", S.me(), "looptest", None))
+                    elif co is A.AsyncResult.__call__.__code__ and ln == L_drop:
+                        q = seq_by_res.get(id(frame.f_locals["self"]))
+                        out["dispatch_count"][q] = out["dispatch_count"].get(q, 0) + 1
+                        out.setdefault("dropped", []).append(q)
+                        rec(("step", S.me(), "dispatch", q))
                     elif co is A.AsyncResult.__call__.__code__ and ln == L_ready:
                         q = seq_by_res.get(id(frame.f_locals["self"]))
                         if q is None:
@@ -140,6 +148,8 @@ def scenario(n_clients, with_bg, answer_order, chooser, sync_timeout=2.0, timeou
                 dict.__setitem__(self, k, v)
         conn._request_callbacks = RecDict()
 
+        deadlines = {}
+
         def client(i):
             def f():
                 payload = "p%d" % i
@@ -154,6 +164,9 @@ def scenario(n_clients, with_bg, answer_order, chooser, sync_timeout=2.0, timeou
                     out["return_time"][i] = S.now
                     return
                 res.set_expiry(sync_timeout if timeouts is None else timeouts[i])
+                tmo = sync_timeout if timeouts is None else timeouts[i]
+                if tmo is not None:
+                    deadlines[i] = S.now + tmo
                 try:
                     out["results"][i] = res.value
                 except Exception as e:
@@ -199,6 +212,8 @@ def scenario(n_clients, with_bg, answer_order, chooser, sync_timeout=2.0, timeou
                 if not S.block(ready, S.now + 10 * (sync_timeout or 2.0), why="peer"):
                     return
                 c = [c for c in order if c not in answered][0]
+                if answer_delay and answer_delay.get(c):
+                    S.block(lambda: False, S.now + answer_delay[c], why="peer-sleep")     # the peer is slow: answers after that much (virtual) time
                 q = seq_of(c)
                 out["seq_of"][c] = q
                 answered.append(c)
@@ -229,6 +244,9 @@ def scenario(n_clients, with_bg, answer_order, chooser, sync_timeout=2.0, timeou
         clock = []
 
         def on_clock(now, new):
+            for ci, dl in sorted(deadlines.items()):
+                if now < dl <= new and seq_of(ci) is not None:
+                    rec(("expire", seq_of(ci)))          # the clock passes this request's own expiry
             if len(clock) < 40:
               clock.append({"from": now, "to": new, "inq": [brine.load(d)[1] for d in ch.inq],
                           "blocked": {str(t): S.blocked.get(t, (None, None, ""))[2] for t in S.sem if t not in S.done}})
@@ -290,6 +308,8 @@ def model_events(out, n_clients):
             evs.append([0, e[1]])
         elif e[0] == "answer":
             evs.append([3, e[1]])
+        elif e[0] == "expire":
+            evs.append([4, e[1]])
         elif e[0] == "timeout":
             if e[1] != "P":
                 evs.append([2, e[1]])
@@ -360,6 +380,30 @@ def oracle13_mixed(ctx, case, out, n_clients, exc_replies):
         ctx.violation("stray-response-sent", case, observed=stray[:3], expected="none", what="a response was sent for a request the peer never made")
     if out["inq_left"] or out["pending_left"]:
         ctx.violation("reply-or-callback-left-over", case, observed={"inq": out["inq_left"], "pending": out["pending_left"]}, expected="none", what="a message was never dispatched or a callback never invoked")
+    if out["errors"]:
+        ctx.violation("thread-raised", case, observed=out["errors"], expected="no exception", what="a thread raised")
+
+
+def oracle13_expiry(ctx, case, out, n_clients):
+    """short expiries and a slow peer: every request completes exactly once - with its own reply if that was dispatched before its
+    expiry, else with the timeout error and not before its expiry; a late reply is dropped (its callback is gone, the cell not ready)"""
+    if out["deadlock"]:
+        ctx.violation("deadlock", case, observed=out["deadlock"][:300], expected="no deadlock", what="all threads blocked with no deadline")
+        return
+    for i in range(n_clients):
+        r = out["results"].get(i)
+        tmo, dly = case["timeouts"][i], case["delay"].get(str(i), 0) or 0
+        if r == "p%d" % i:
+            continue
+        if r == "EXC:TimeoutError":
+            if out["return_time"].get(i, 0) + 1e-9 < tmo:
+                ctx.violation("gave-up-before-its-expiry", case, observed={"client": i, "returned_at": out["return_time"].get(i)}, expected=">= %s" % tmo,
+                              what="a wait raised the timeout error before the request's own expiry")
+            continue
+        ctx.violation("reply-crossed-or-lost:" + str(r)[:30], case, observed=r, expected="p%d or its timeout" % i, what="a request ended with neither its own reply nor its own timeout")
+    for q, k in out["dispatch_count"].items():
+        if k != 1:
+            ctx.violation("reply-dispatched-%d-times" % k, case, observed=k, expected=1, what="an incoming message was dispatched more than once")
     if out["errors"]:
         ctx.violation("thread-raised", case, observed=out["errors"], expected="no exception", what="a thread raised")
 
@@ -485,6 +529,38 @@ def run_plans(ctx, which):
             ctx.case(("mixed", nc, bg, tuple(order), seed, pr, tuple(ex)), nontrivial=True, sample={"case": case, "results": out["results"], "served": len(out["peer_replies"])})
             ctx.count("mixed-runs(inbound requests + exception replies)")
             oracle13_mixed(ctx, case, out, nc, ex)
+    xbatch = []
+    if which == "C13":
+        for k in range(80 if ctx.quick else 2000):
+            nc = r.choice([1, 2, 2, 3])
+            bg = r.random() < 0.7
+            order = list(range(nc)); r.shuffle(order)
+            seed, stick = r.randrange(10**9), r.choice([0.0, 0.2, 0.5])
+            tmos = [r.choice([0.5, 1.0, 3.0]) for _ in range(nc)]
+            delay = {i: r.choice([0, 0, 0.7, 2.0]) for i in range(nc)}
+            out = scenario(nc, bg, order, make_chooser(seed, stick), timeouts=tmos, answer_delay=delay)
+            case = {"clients": nc, "bg": bg, "order": order, "seed": seed, "stick": stick, "timeouts": tmos, "delay": {str(k2): v for k2, v in delay.items()}}
+            ctx.case(("expiry", nc, bg, tuple(order), seed, tuple(tmos), tuple(sorted(delay.items()))), nontrivial=True, sample={"case": case, "results": out["results"]})
+            ctx.count("expiry-runs")
+            if any(v == "EXC:TimeoutError" for v in out["results"].values()):
+                ctx.count("expiry-runs-with-a-timeout")
+            oracle13_expiry(ctx, case, out, nc)
+            okx = not out["deadlock"] and not out["errors"] and all(out["results"].get(i) in ("p%d" % i, "EXC:TimeoutError") for i in range(nc))
+            if model and okx and all(out["seq_of"].get(i) is not None for i in range(nc)):
+                servers = [False] * nc + ([True] if bg else [])
+                xbatch.append(([servers, model_events(out, nc), list(range(nc)), [out["seq_of"][i] for i in range(nc)]], out, case, nc))
+    if model and xbatch:
+        outs = model.batch([b[0] for b in xbatch])
+        for (mc, out, case, nc), m in zip(xbatch, outs):
+            ctx.model_traces += 1
+            if m[0] != b"ok":
+                ctx.tie_broken("correspondence:event-not-enabled-in-model", "expiry case %s model says %r (%d events)" % (case, m, len(mc[1])))
+                continue
+            pcs, readys = m[1], m[2]
+            want_pcs = [8 if out["results"][i] == "p%d" % i else 9 for i in range(nc)]
+            want_ready = [out["results"][i] == "p%d" % i for i in range(nc)]
+            if pcs != want_pcs or [bool(x) for x in readys] != want_ready:
+                ctx.tie_broken("correspondence:final-state", "expiry case %s model pcs %s ready %s real results %s" % (case, pcs, readys, out["results"]))
     if model and batch:
         outs = model.batch([b[0] for b in batch])
         for (mc, out, case), m in zip(batch, outs):
@@ -512,6 +588,11 @@ def replay(ctx, rep):
     if cs.get("eof_after") is not None:
         out = scenario(cs["clients"], cs["bg"], cs["order"], chooser, sync_timeout=None, timeouts=[None] * cs["clients"], eof_after=cs["eof_after"])
         oracle13_eof(ctx, cs, out, cs["clients"], cs["eof_after"])
+        ctx.case(("replay", cs["seed"]), True)
+        return
+    if "delay" in cs:
+        out = scenario(cs["clients"], cs["bg"], cs["order"], chooser, timeouts=cs["timeouts"], answer_delay={int(k): v for k, v in cs["delay"].items()})
+        oracle13_expiry(ctx, cs, out, cs["clients"])
         ctx.case(("replay", cs["seed"]), True)
         return
     if "peer_requests" in cs:
